@@ -194,3 +194,62 @@ def http_path(sx, L):
         prot.decompose_incoming_envelope(ctx, prot.REQUEST)
         return [c.descriptor for c in prot.generate_method_contexts(ctx)]
     return _judge(sx, app, name, run)
+
+
+# ---------------------------------------------------------------- HttpPattern routing
+from spyne.protocol.http import HttpPattern
+from spyne.model.primitive import Unicode
+
+
+class P(Service):
+    @rpc(_returns=Integer, _patterns=[HttpPattern('/user', verb='GET')])
+    def user(ctx):
+        return 1
+
+    @rpc(Unicode, _returns=Integer, _patterns=[HttpPattern('/item/<item_id>', verb='GET')])
+    def item(ctx, item_id):
+        return 2
+
+    @rpc(_returns=Integer, _patterns=[HttpPattern('/ping')])
+    def ping(ctx):
+        return 3
+
+    @rpc(_returns=Integer, _patterns=[HttpPattern('/user/ping', verb='(GET|POST)')])
+    def userping(ctx):
+        return 4
+
+
+PAPP = Application([P], TNS, in_protocol=HttpRpc(), out_protocol=JsonDocument())
+PW = WsgiApplication(PAPP)
+
+
+@harness('C11', params=[1, 4, 5, 6, 7, 8, 10, 11], label=lambda L: 'pathlen=%d' % L,
+         functions=['spyne.server.http.HttpBase.match_pattern', 'spyne.protocol.http.HttpPattern._compile_url_pattern'],
+         bounds={'path': 'every path of the given lengths over the characters of the registered addresses '
+                         '(/user, /item/<item_id>, /ping, /user/ping) plus two foreign characters; verbs GET, POST, PUT'})
+def http_pattern(sx, L):
+    """HttpPattern routing: the method whose address pattern matches the *whole* path (and whose verb matches) is
+    selected; a path that merely starts with, ends with or resembles a registered address selects nothing"""
+    import re
+    path = '/' + sx.text('path', L - 1, alphabet='/useritmpng4X') if L > 1 else '/'
+    verb = sx.choose('verb', ['GET', 'POST', 'PUT'])
+    env = {'REQUEST_METHOD': verb, 'PATH_INFO': '/', 'QUERY_STRING': '', 'SERVER_NAME': 'localhost',
+           'SERVER_PORT': '80', 'wsgi.url_scheme': 'http'}
+    ctx = WsgiMethodContext(PW, env, 'text/plain')
+    params = PW.match_pattern(ctx, verb, path, 'localhost')
+    got = ctx.method_request_string
+    sx.observe('selected', got)
+    # reference: first pattern, in the transport's own order, whose address matches the whole path
+    want = []
+    for patt in PW._http_patterns:
+        verb_ok = patt.verb is None or re.fullmatch(patt.verb_re.pattern, verb) is not None
+        if not verb_ok:
+            continue
+        want.append((patt.endpoint.name, sx.matches(patt.address_re.pattern, path)))
+    ok = []
+    none_before = True
+    for name, m in want:
+        ok.append(sx.Implies(sx.And(none_before, m), got == name))
+        none_before = sx.And(none_before, sx.Not(m))
+    ok.append(sx.Implies(none_before, got is None))
+    return sx.And(*ok)
